@@ -2,6 +2,7 @@ pub mod ledger;
 pub mod mem;
 pub mod memseq;
 pub mod model;
+pub mod c13mt;
 pub mod c14;
 pub mod c02;
 pub mod c03;
